@@ -1,6 +1,7 @@
 package rules
 
 import (
+	"fmt"
 	"go/ast"
 	"go/token"
 	"go/types"
@@ -230,3 +231,5 @@ func (r *Run) exprCalls(info *types.Info, e ast.Node, fn *types.Func) bool {
 	})
 	return found
 }
+
+func sscanInt(s string, v *int) (int, error) { return fmt.Sscanf(s, "%d", v) }
